@@ -705,6 +705,10 @@ impl Property for C07 {
                 }
             }
             o.class("exchange-spanning-a-reconnection");
+            if o.fail.is_none() {
+                o.fail = c07_across_resumption((h / 135 % 4) as u8);
+                o.class("subscriptions-across-a-resumption");
+            }
         }
         o
     }
@@ -929,6 +933,100 @@ impl Property for C09 {
         }
         o
     }
+}
+
+/// Subscriptions of a session that is resumed (hook, session alive) keep their streams: one
+/// subscribe is still waiting for its SUBACK (or was cancelled) when the connection is lost, another
+/// is acknowledged and streaming, in either registration order.
+pub fn c07_across_resumption(variant: u8) -> Option<Failure> {
+    use crate::world::World;
+    let plan = WritePlan::default();
+    let mut w = World::new();
+    let spec = ConnectSpec { session_expiry: Some(3600), client_id: Some("c07r".into()), ..Default::default() };
+    if connect_and_run(&mut w, spec.clone(), &rc::Connack::default(), &plan).is_err() {
+        return None;
+    }
+    let mut tr = Tracker::new();
+    tr.skip_existing(&mut w);
+    let pending_first = variant & 1 == 0;
+    let cancel_pending = variant & 2 != 0;
+    let mut sub = |w: &mut World, tr: &mut Tracker, tag: usize, acked: bool| -> Option<(usize, u32)> {
+        let op = w.start_op(0, OpSpec::Subscribe(tagged_subscribe(tag, 1)))?;
+        settle(w, &plan, true);
+        tr.update(w);
+        let pid = tr.pid(op)?;
+        let sid = tr.sub_id(op)?;
+        if acked {
+            feed_packet(w, &rc::Packet::Suback(rc::AckList { pid, reasons: vec![1], ..Default::default() }), &rc::Form::canonical());
+            settle(w, &plan, true);
+        }
+        Some((op, sid))
+    };
+    let (live_op, live_sid, pend_op);
+    if pending_first {
+        let p = sub(&mut w, &mut tr, 1, false)?;
+        let l = sub(&mut w, &mut tr, 2, true)?;
+        live_op = l.0;
+        live_sid = l.1;
+        pend_op = p.0;
+    } else {
+        let l = sub(&mut w, &mut tr, 1, true)?;
+        let p = sub(&mut w, &mut tr, 2, false)?;
+        live_op = l.0;
+        live_sid = l.1;
+        pend_op = p.0;
+    }
+    let stream = w.make_stream(live_op)?;
+    if cancel_pending {
+        w.drop_op(pend_op);
+        settle(&mut w, &plan, true);
+    }
+    let msg = |k: u8| rc::encode(&rc::Packet::Publish(rc::Publish { qos: 0, topic: "c07r/t".into(), payload: vec![k], subscription_ids: vec![live_sid], ..Default::default() }), &rc::Form::canonical());
+    w.tick();
+    w.reader.feed(msg(1));
+    settle(&mut w, &plan, true);
+    w.drain_stream(stream);
+    if w.streams[stream].items.len() != 1 {
+        return None;
+    }
+    w.tick();
+    w.reader.set_eof();
+    settle(&mut w, &plan, true);
+    if w.run_result.is_none() || !w.mark_disconnected(5) || !w.set_up_again() {
+        return None;
+    }
+    let spec2 = ConnectSpec { clean_start: Some(false), ..spec };
+    if connect_and_run(&mut w, spec2, &rc::Connack { session_present: true, ..Default::default() }, &plan).is_err() {
+        return None;
+    }
+    w.tick();
+    w.reader.feed(msg(2));
+    settle(&mut w, &plan, true);
+    if let Some(p) = first_panic(&w) {
+        return Some(Failure { sig: format!("PANIC/{}", panic_sig(&p)), msg: p });
+    }
+    w.drain_stream(stream);
+    let how = format!(
+        "the subscribe still waiting for its SUBACK was issued {} the streaming one{}",
+        if pending_first { "before" } else { "after" },
+        if cancel_pending { " and its future had been dropped" } else { "" }
+    );
+    if w.run_result.is_some() {
+        return None;
+    }
+    if w.streams[stream].ended {
+        return Some(Failure {
+            sig: "C07/stream-ended-while-context-alive/across-resumption".into(),
+            msg: format!("the stream of an acknowledged subscription ended when its session was resumed on a new connection ({how})"),
+        });
+    }
+    if w.streams[stream].items.len() != 2 {
+        return Some(Failure {
+            sig: "C07/stream/message-lost/across-resumption".into(),
+            msg: format!("a message for an acknowledged subscription arriving on the resumed connection was not yielded ({} items; {how})", w.streams[stream].items.len()),
+        });
+    }
+    None
 }
 
 /// The session continues over a reconnection (the server says Session Present); `open` inbound
